@@ -322,7 +322,8 @@ class Interpreter:
             y = getattr(det, method)(data)
             if not degenerate:
                 return sparse_signature(y) if method == "predict" else y
-            sc = getattr(det, "scores", None)
+            # transform_scores returns the scores; predict / transform store them in `scores` during this call
+            sc = y if method == "transform_scores" else getattr(det, "scores", None)
             vals = np.asarray(sc["score"] if hasattr(sc, "columns") else sc, dtype=float).reshape(-1) if sc is not None else np.zeros(0)
             thr = float(getattr(det, "threshold_", getattr(det, "penalty_", 0.0)))
             return np.concatenate(([thr], vals))
